@@ -259,6 +259,12 @@ Section Progress.
     pose proof (holder_of_top F s t l p r (T t) E D) as K2. congruence.
   Qed.
 
+  Lemma drain_in_holds k l p : In (l, p) k -> is_drain p = true -> In l (holds k).
+  Proof.
+    intros H D. unfold holds. apply in_flat_map. exists (l, p). split; [exact H|].
+    unfold frame_tokens. destruct p; cbn in D |- *; try discriminate; try (left; reflexivity). destruct e; left; reflexivity.
+  Qed.
+
   Lemma needs_item_drain p : needs_item p = true -> is_drain p = true.
   Proof. destruct p; cbn; congruence. Qed.
 
@@ -364,21 +370,17 @@ Section Progress.
                 intros _. destruct (e_ent e0); sproj; rewrite upd_same; discriminate.
               * (* the frames below are on other lanes *)
                 destruct I as [L T]. destruct (tinv_top F s t l _ r (T t) E) as (T1 & _).
-                clear St. induction Hr as [|[x q] k Hf Hk IH]; constructor.
-                -- unfold frame_fed in *; cbn [fst snd] in *. intros N. specialize (Hf N).
-                   assert (x <> l).
-                   { intros ->. cbn [frame_tokens is_drain app] in T1. inversion T1 as [|a b Ha Hb]; subst. apply Ha.
-                     rewrite holds_cons. apply in_or_app. left. apply needs_item_drain in N.
-                     unfold frame_tokens. destruct q; cbn in N |- *; try discriminate; try (left; reflexivity). destruct e; left; reflexivity. }
-                   destruct (e_ent e0); sproj; rewrite upd_other by assumption; exact Hf.
-                -- apply IH. cbn [frame_tokens is_drain app] in T1 |- *. rewrite holds_cons in T1.
-                   inversion T1 as [|a b Ha Hb]; subst. constructor; [|apply nodup_app_r in Hb; exact Hb].
-                   intros Hin. apply Ha. apply in_or_app. right. exact Hin.
+                cbn [frame_tokens is_drain app] in T1. inversion T1 as [|a b Ha Hb]; subst.
+                apply Forall_forall. intros [x q] Hin. rewrite Forall_forall in Hr. specialize (Hr _ Hin).
+                unfold frame_fed in *; cbn [fst snd] in *. intros N. specialize (Hr N).
+                assert (x <> l).
+                { intros ->. apply Ha. apply (drain_in_holds r l q Hin). apply needs_item_drain. exact N. }
+                destruct (e_ent e0); sproj; rewrite upd_other by assumption; exact Hr.
             + assert (St : stk (set_stk (match e_ent e0 with Lane l' => set_token (set_lst s l rest) l' (Some (Some t)) | Item _ => set_lst s l rest end) t
-                                   ((l, PW_run OWN (e_ent e0) more) :: r)) u = stk s u) by (sproj; apply upd_other; exact N).
+                                   ((l, PW_run OWN (e_ent e0) more) :: r)) u = stk s u) by (destruct (e_ent e0); sproj; apply upd_other; exact N).
               rewrite St. specialize (H1 u). clear St.
               assert (Hu : forall f, In f (stk s u) -> needs_item (snd f) = true -> fst f <> l).
-              { intros [x q] Hin Nq -> . cbn [fst snd] in *. apply N. apply (top_holder_unique s t u l _ r q I E eq_refl Hin). apply needs_item_drain. exact Nq. }
+              { intros [x q] Hin Nq Ex. cbn [fst snd] in *. subst x. apply N. apply (top_holder_unique s t u l _ r q I E eq_refl Hin). apply needs_item_drain. exact Nq. }
               induction H1 as [|f k Hf Hk IH]; constructor.
               * unfold frame_fed in *. intros Nq. specialize (Hf Nq). specialize (Hu f (or_introl eq_refl) Nq).
                 destruct (e_ent e0); sproj; rewrite upd_other by assumption; exact Hf.
@@ -428,5 +430,91 @@ Section Progress.
           -- constructor; [intros N; discriminate | exact Hr].
           -- apply fed_ret. exact Hr.
         * apply (L2_same s _ t H2); [destruct (enq_flipped (u64 (st s l - owned)) new); reflexivity | exact Oth | rewrite E; intros; discriminate].
+  Qed.
+
+  Theorem Inv2_reachable s : reach F s -> Inv2 s.
+  Proof.
+    apply invariant_lift.
+    - intros s0 ->. apply Inv2_init.
+    - intros s1 a s2 I H. exact (step2_preserves s1 a s2 I H).
+  Qed.
+
+  (* ---------------------------------------------------------------- enabledness *)
+  Definition enabled (s : gst) (t : Z) : Prop := exists o s', gstep F s t o = Some s'.
+
+  Lemma link_enabled s t l e w q r : stk s t = (l, PA_link e w q) :: r -> enabled s t.
+  Proof. intros H. exists false. unfold gstep. rewrite H. eexists. reflexivity. Qed.
+
+  (* every thread inside a call or a drain either can step, or waits for an enqueuer that can *)
+  Theorem no_stuck_thread s t :
+    reach F s -> valid_tid t -> stk s t <> [] -> enabled s t \/ exists u, u <> t /\ enabled s u.
+  Proof.
+    intros R Vt NI. destruct (Inv2_reachable s R) as (I & H1 & H2). pose proof I as [L T].
+    destruct (stk s t) as [|[l p] r] eqn:E; [contradiction|].
+    destruct (L l) as [rl G]. pose proof (g_enc F s l rl G) as Genc. pose proof (g_wf F s l rl G) as Gwf.
+    assert (Fed : frame_fed s (l, p)) by (specialize (H1 t); rewrite E in H1; inversion H1; assumption).
+    assert (En : forall s1, gstep F s t false = Some s1 -> enabled s t) by (intros s1 H; exists false, s1; exact H).
+    destruct p; unfold enabled at 1; unfold gstep; rewrite E.
+    - left. exists false. eexists. reflexivity.
+    - left. exists false. eexists. reflexivity.
+    - left. exists false. eexists. reflexivity.
+    - (* PA_wake *) left. exists false.
+      destruct (tinv_top F s t l _ r (T t) E) as (_ & _ & _ & _ & (_ & Bq & _) & _). pose proof (Bq qos eq_refl) as Q.
+      unfold w_wake, ENQUEUED. rewrite Genc. destruct dirty.
+      + rewrite (wakeup_fields rl qos 3 1 Gwf Q eq_refl). cbv zeta. eexists. reflexivity.
+      + rewrite (wakeup_fields_nodirty rl qos 1 1 Gwf Q eq_refl). cbv zeta.
+        destruct (can_enqueue rl); [eexists; reflexivity|]. destruct (f_mq rl <? qos); eexists; reflexivity.
+    - left. exists false. eexists. reflexivity.
+    - (* PW_lock *) left. exists false.
+      destruct (lock_never_fails F FOK s t l floor r R E) as [H|[nw H]]; rewrite H; eexists; reflexivity.
+    - left. exists false. eexists. reflexivity.
+    - (* PW_head: the head entry is linked, or its enqueuer is about to link it *)
+      assert (Ll : lst s l <> []) by (apply Fed; reflexivity).
+      destruct (lst s l) as [|e0 l0] eqn:El; [contradiction|].
+      destruct (e_linked e0) eqn:Elk; [left; exists false; eexists; reflexivity|].
+      right. destruct (H2 l e0) as (u & w & q & r0 & Eu); [rewrite El; left; reflexivity | exact Elk |].
+      exists u. split; [intros ->; congruence | apply (link_enabled s u _ _ _ _ _ Eu)].
+    - (* PW_pop *)
+      assert (Ll : lst s l <> []) by (apply Fed; reflexivity).
+      destruct (lst s l) as [|e0 [|e2 l0]] eqn:El; [contradiction | left; exists false; eexists; reflexivity |].
+      destruct (e_linked e2) eqn:Elk; [left; exists false; eexists; reflexivity|].
+      right. destruct (H2 l e2) as (u & w & q & r0 & Eu); [rewrite El; right; left; reflexivity | exact Elk |].
+      exists u. split; [intros ->; congruence | apply (link_enabled s u _ _ _ _ _ Eu)].
+    - left. exists false. eexists. reflexivity.
+    - left. exists false. eexists. reflexivity.
+    - (* PW_invoking is never the top frame *)
+      exfalso. destruct (T t) as (_ & _ & _ & T4 & _). rewrite E in T4. cbn [shape is_drain] in T4. destruct T4 as [_ NI']. exact (NI' _ _ _ eq_refl).
+    - left. exists false. destruct more; eexists; reflexivity.
+    - (* PW_unlock *) left. exists false.
+      assert (owned = OWN) by (apply (owned_top F s t l _ r owned (T t) E); reflexivity). subst owned.
+      destruct (top_drain_facts F s t l _ r rl I E eq_refl G) as (K & _ & Fr & Enq). cbn [locked_pc] in Fr. destruct Fr as (O & Ib & Wq).
+      unfold w_unlock. rewrite Genc. change OWN with (18014398509481984 + 2199023255552 + 2147483648 * 1).
+      rewrite (unlock_fields rl 1 Gwf (g_hi F s l rl G) Ib Wq) by lia.
+      destruct (f_d rl =? 1); eexists; reflexivity.
+    - left. exists false. eexists. reflexivity.
+    - (* PW_finish *) left. exists false.
+      assert (owned = OWN) by (apply (owned_top F s t l _ r owned (T t) E); reflexivity). subst owned.
+      destruct (top_drain_facts F s t l _ r rl I E eq_refl G) as (K & _ & Fr & Enq). cbn [locked_pc] in Fr. destruct Fr as (O & Ib & Wq).
+      unfold w_finish, ENQUEUED. rewrite Genc. change OWN with (18014398509481984 + 2199023255552 + 2147483648 * 1).
+      rewrite (finish_fields rl Gwf (g_hi F s l rl G) Ib Wq Enq (g_em F s l rl G)). eexists. reflexivity.
+  Qed.
+
+  (* hence: a reachable state in which some thread is inside a call is never deadlocked *)
+  Corollary no_deadlock s t : reach F s -> valid_tid t -> stk s t <> [] -> exists u, enabled s u.
+  Proof. intros R V N. destruct (no_stuck_thread s t R V N) as [H|(u & _ & H)]; eauto. Qed.
+
+  (* dispatch_async never waits: every program point of the submission path (at any level of the hierarchy) has an
+     enabled step, whatever the drainers and the other submitters are doing *)
+  Theorem async_never_blocks s t l p r :
+    reach F s -> stk s t = (l, p) :: r -> is_drain p = false -> enabled s t.
+  Proof.
+    intros R E D. destruct (Inv2_reachable s R) as (I & _ & _). pose proof I as [L T].
+    destruct (L l) as [rl G]. pose proof (g_enc F s l rl G) as Genc. pose proof (g_wf F s l rl G) as Gwf.
+    exists false. unfold gstep. rewrite E. destruct p; try discriminate; try (eexists; reflexivity).
+    destruct (tinv_top F s t l _ r (T t) E) as (_ & _ & _ & _ & (_ & Bq & _) & _). pose proof (Bq qos eq_refl) as Q.
+    unfold w_wake, ENQUEUED. rewrite Genc. destruct dirty.
+    - rewrite (wakeup_fields rl qos 3 1 Gwf Q eq_refl). cbv zeta. eexists. reflexivity.
+    - rewrite (wakeup_fields_nodirty rl qos 1 1 Gwf Q eq_refl). cbv zeta.
+      destruct (can_enqueue rl); [eexists; reflexivity|]. destruct (f_mq rl <? qos); eexists; reflexivity.
   Qed.
 End Progress.
